@@ -143,6 +143,12 @@ const uint32_t PRIMES[] = {2,  2,  3,  3,  5,  7,  11,  13,  17,  19, 23,
                            29, 31, 37, 41, 43, 47, 53,  59,  61,  67, 71,
                            73, 79, 83, 89, 97, 101, 127, 151, 193, 199};
 
+const char *ARITH_KINDS[] = {"iadd", "isub", "imul", "idiv", "imod", "iadd_c", "isub_c", "imul_c",
+                             "idiv_c", "neg", "add", "sub", "mul", "divrem", "lshift", "rshift",
+                             "sqr", "pow", "monic", "gcd", "lcm", "diff", "eval", "sqf",
+                             "compose_mod", "pow_mod", "frobenius", "ddf", "copy"};
+const unsigned N_ARITH = sizeof ARITH_KINDS / sizeof ARITH_KINDS[0];
+
 Json poly_json(const Poly &a)
 {
     Json j = Json::array();
@@ -189,10 +195,86 @@ Json gen(uint64_t seed, const std::string &tier)
     plan["config"] = cfg;
     Json ops = Json::array();
     unsigned nops = 1 + (unsigned)g.below(4);
-    // p = 2: the trace loop of gf_edf_zassenhaus runs 2^(deg-1) squarings
-    int maxdeg = p == 2 ? 8 : 12;
+    unsigned arith_share = (unsigned)g.below(4); // swarm: 0 = factorisation only
+    bool several_fields = g.chance(1, 2);        // swarm: fields interleaved in one run
+    unsigned force_share = (unsigned)g.below(4); // swarm: 0 = no forced draws
+    const uint32_t p0 = p;
     for (unsigned k = 0; k < nops; k++) {
         Json o = Json::object();
+        p = p0;
+        if (several_fields && k > 0 && g.chance(1, 2))
+            p = PRIMES[g.below(sizeof PRIMES / sizeof PRIMES[0])];
+        o["p"] = (long long)p;
+        // p = 2: the trace loop of gf_edf_zassenhaus runs 2^(deg-1) squarings
+        int maxdeg = p == 2 ? 8 : 12;
+        if (g.below(4) < arith_share) {
+            o["op"] = "arith";
+            Json init = Json::array();
+            unsigned np = 1 + (unsigned)g.below(4);
+            for (unsigned i = 0; i < np; i++) {
+                Poly a;
+                switch (g.below(6)) {
+                    case 0:
+                        break; // zero polynomial
+                    case 1:
+                        a = Poly{(uint32_t)g.below(p)}; // constant
+                        break;
+                    case 2: { // a product with repeated factors
+                        a = Poly{1};
+                        for (int t = 0; t < 3; t++) {
+                            Poly q = random_monic(g, 1 + (int)g.below(2), p);
+                            unsigned m = 1 + (unsigned)g.below(p <= 3 ? 4 : 3);
+                            if (p <= 3 && g.chance(1, 3))
+                                m = p * p + (unsigned)g.below(2);
+                            for (unsigned j = 0; j < m && deg(a) < 12; j++)
+                                a = mul(a, q, p);
+                        }
+                        break;
+                    }
+                    default: {
+                        int d = (int)g.below(9);
+                        a.resize(d + 1);
+                        for (auto &cf : a)
+                            cf = (uint32_t)g.below(p);
+                    }
+                }
+                norm(a);
+                init.push(poly_json(a));
+            }
+            o["init"] = init;
+            Json steps = Json::array();
+            unsigned ns = 4 + (unsigned)g.below(thorough ? 40 : 24);
+            std::vector<unsigned> kw(N_ARITH, 2);
+            for (auto &x : kw)
+                if (g.chance(1, 3))
+                    x = g.chance(1, 2) ? 0 : 7;
+            for (unsigned i = 0; i < ns; i++) {
+                Json st = Json::object();
+                st["k"] = ARITH_KINDS[g.weighted(kw)];
+                st["a"] = (unsigned)g.below(np);
+                st["b"] = g.chance(1, 5) ? st["a"] : Json((unsigned)g.below(np));
+                st["c"] = (unsigned)g.below(np);
+                long long nv;
+                switch (g.below(5)) {
+                    case 0:
+                        nv = 0;
+                        break;
+                    case 1:
+                        nv = (long long)p * (long long)g.range(-2, 2);
+                        break;
+                    case 2:
+                        nv = g.range(-1000000, 1000000);
+                        break;
+                    default:
+                        nv = (long long)g.below(p);
+                }
+                st["n"] = nv;
+                steps.push(st);
+            }
+            o["steps"] = steps;
+            ops.push(o);
+            continue;
+        }
         o["op"] = "factor";
         Poly f = {1};
         bool squarefree = true;
@@ -208,6 +290,8 @@ Json gen(uint64_t seed, const std::string &tier)
                     break;
                 Poly q = random_irreducible(g, d, p);
                 unsigned m = g.chance(1, 5) ? 2 + (unsigned)g.below(2) : 1;
+                if (p <= 3 && g.chance(1, 4)) // multiplicity p^2 and beyond: second p-th root
+                    m = p * p + (unsigned)g.below(3);
                 if (std::find(used.begin(), used.end(), q) != used.end())
                     m = 1, squarefree = false;
                 for (unsigned i = 0; i < m && budget >= d; i++) {
@@ -254,6 +338,29 @@ Json gen(uint64_t seed, const std::string &tier)
             seeds.push(l);
         }
         o["seeds"] = seeds;
+        // forced outcomes of individual GMP draws, one entry per seed list:
+        // [] none; ["prefix", L, mode] the first L draws; ["at", i, mode, ...]
+        Json force = Json::array();
+        for (unsigned s = 0; s < nseeds; s++) {
+            Json fz = Json::array();
+            if (g.below(4) < force_share) {
+                if (g.chance(1, 2)) {
+                    static const unsigned L[] = {1, 2, 3, 5, 8, 13, 24, 40, 70, 120};
+                    fz.push("prefix");
+                    fz.push(L[g.below(10)]);
+                    fz.push((unsigned)g.below(5));
+                } else {
+                    fz.push("at");
+                    unsigned cnt = 1 + (unsigned)g.below(4);
+                    for (unsigned i = 0; i < cnt; i++) {
+                        fz.push((unsigned)g.below(g.chance(1, 2) ? 6 : 40));
+                        fz.push((unsigned)g.below(5));
+                    }
+                }
+            }
+            force.push(fz);
+        }
+        o["force"] = force;
         ops.push(o);
     }
     plan["ops"] = ops;
@@ -313,21 +420,526 @@ std::string check_factorisation(const Poly &f, uint32_t lc, Factors fs, uint32_t
     return "";
 }
 
+
+// ---------------- arithmetic history (mutable GaloisFieldDict objects) ------
+Poly addp(const Poly &a, const Poly &b, uint32_t p)
+{
+    Poly r(std::max(a.size(), b.size()), 0);
+    for (size_t i = 0; i < r.size(); i++)
+        r[i] = ((i < a.size() ? a[i] : 0) + (i < b.size() ? b[i] : 0)) % p;
+    norm(r);
+    return r;
+}
+Poly scal(const Poly &a, uint32_t c, uint32_t p)
+{
+    Poly r(a);
+    for (auto &x : r)
+        x = (uint32_t)((uint64_t)x * c % p);
+    norm(r);
+    return r;
+}
+// a = q*b + r, deg r < deg b  (b != 0)
+void divmodp(Poly a, const Poly &b, uint32_t p, Poly &q, Poly &r)
+{
+    norm(a);
+    q.assign(a.size() >= b.size() ? a.size() - b.size() + 1 : 0, 0);
+    uint32_t il = inv_mod(b.back(), p);
+    while (!a.empty() && a.size() >= b.size()) {
+        uint32_t c = (uint32_t)((uint64_t)a.back() * il % p);
+        size_t sh = a.size() - b.size();
+        q[sh] = c;
+        for (size_t i = 0; i < b.size(); i++)
+            a[sh + i] = (uint32_t)((a[sh + i] + (uint64_t)(p - c) * b[i]) % p);
+        a.back() = 0;
+        norm(a);
+    }
+    norm(q);
+    r = a;
+}
+Poly diffp(const Poly &a, uint32_t p)
+{
+    Poly d(a.size() > 1 ? a.size() - 1 : 0);
+    for (size_t i = 1; i < a.size(); i++)
+        d[i - 1] = (uint32_t)((uint64_t)a[i] * (i % p) % p);
+    norm(d);
+    return d;
+}
+uint32_t evalp(const Poly &a, uint32_t x, uint32_t p)
+{
+    uint64_t r = 0;
+    for (size_t i = a.size(); i-- > 0;)
+        r = (r * x + a[i]) % p;
+    return (uint32_t)r;
+}
+Poly powp(const Poly &a, unsigned n, uint32_t p)
+{
+    Poly r = {1 % p};
+    norm(r);
+    for (unsigned i = 0; i < n; i++)
+        r = mul(r, a, p);
+    return r;
+}
+bool squarefree(const Poly &f, uint32_t p) // f non-constant
+{
+    // f is square-free iff gcd(f, f') = 1 (f' = 0 means f is a p-th power)
+    Poly d = diffp(f, p);
+    if (d.empty())
+        return deg(f) < 1;
+    return deg(gcd(f, d, p)) == 0;
+}
+Poly to_monic(const Poly &f, uint32_t p)
+{
+    if (f.empty())
+        return f;
+    return scal(f, inv_mod(f.back(), p), p);
+}
+
+struct Arith {
+    Run &run;
+    uint32_t p;
+    integer_class mod;
+    std::vector<GaloisFieldDict> P;
+    std::vector<Poly> M;
+    unsigned judged = 0, inplace = 0;
+
+    Arith(Run &r, uint32_t p_) : run(r), p(p_), mod((unsigned long)p_) {}
+
+    GaloisFieldDict make(const Poly &a)
+    {
+        std::vector<integer_class> v;
+        for (auto c : a)
+            v.push_back(integer_class((unsigned long)c));
+        return GaloisFieldDict::from_vec(v, mod);
+    }
+    // canonical representation: coefficients in [0, p), no leading zero
+    std::string repr_error(const GaloisFieldDict &d)
+    {
+        if (d.modulo_ != mod)
+            return "modulus changed";
+        for (auto &c : d.dict_)
+            if (c < integer_class(0) || c >= mod)
+                return "coefficient " + integer(c)->__str__() + " outside [0, p)";
+        if (!d.dict_.empty() && d.dict_.back() == integer_class(0))
+            return "leading zero coefficient kept";
+        return "";
+    }
+    bool same(const GaloisFieldDict &d, const Poly &m, const std::string &what)
+    {
+        std::string e = repr_error(d);
+        if (!e.empty()) {
+            run.fail("not-canonical:" + what.substr(0, what.find(' ')),
+                     what + ": result " + e + " (p = " + std::to_string(p) + ")");
+            return false;
+        }
+        Poly got = from_gf(d, p);
+        if (got != m) {
+            run.fail("wrong-arith:" + what.substr(0, what.find(' ')),
+                     what + " mod " + std::to_string(p) + ": got " + show(got) + ", expected "
+                         + show(m));
+            return false;
+        }
+        judged++;
+        return true;
+    }
+    void store(size_t c, const GaloisFieldDict &d, const Poly &m)
+    {
+        if (deg(m) > 24) { // keep histories bounded: same value, small degree
+            Poly cut(m.begin(), m.begin() + 9);
+            norm(cut);
+            P[c] = make(cut);
+            M[c] = cut;
+            run.probe("arith_degree_capped");
+        } else {
+            P[c] = d;
+            M[c] = m;
+        }
+    }
+    void check_pool(const std::string &after)
+    {
+        for (size_t i = 0; i < P.size() && !run.failed(); i++)
+            same(P[i], M[i], after + " [pool member " + std::to_string(i) + " afterwards]");
+    }
+
+    void step(const Json &o)
+    {
+        std::string k = o.gets("k");
+        size_t n = P.size();
+        size_t a = (size_t)o.geti("a") % n, b = (size_t)o.geti("b") % n,
+               c = (size_t)o.geti("c") % n;
+        long long v = o.geti("n");
+        std::string tag = k + " a=" + std::to_string(a) + " b=" + std::to_string(b)
+                          + " n=" + std::to_string(v) + " A=" + show(M[a]) + " B=" + show(M[b]);
+        run.ev(tag);
+        uint32_t vm = (uint32_t)(((v % (long long)p) + p) % p);
+        try {
+            if (k == "iadd" || k == "isub" || k == "imul" || k == "idiv" || k == "imod") {
+                Poly mb = M[b], want; // copy: b may alias a
+                bool zero_div = (k == "idiv" || k == "imod") && mb.empty();
+                if (a == b)
+                    run.probe("arith_aliased_operands");
+                inplace++;
+                if (zero_div) {
+                    bool threw = false;
+                    try {
+                        if (k == "idiv")
+                            P[a] /= P[b];
+                        else
+                            P[a] %= P[b];
+                    } catch (const DivisionByZeroError &) {
+                        threw = true;
+                    }
+                    if (!threw)
+                        run.fail("no-zero-division-error:" + k, tag + ": division by the zero polynomial did not throw");
+                    run.probe("arith_division_by_zero");
+                } else {
+                    if (k == "iadd") {
+                        P[a] += P[b];
+                        want = addp(M[a], mb, p);
+                    } else if (k == "isub") {
+                        P[a] -= P[b];
+                        want = sub(M[a], mb, p);
+                    } else if (k == "imul") {
+                        P[a] *= P[b];
+                        want = mul(M[a], mb, p);
+                    } else {
+                        Poly q, r;
+                        divmodp(M[a], mb, p, q, r);
+                        if (k == "idiv") {
+                            P[a] /= P[b];
+                            want = q;
+                        } else {
+                            P[a] %= P[b];
+                            want = r;
+                        }
+                    }
+                    M[a] = want;
+                }
+            } else if (k == "iadd_c" || k == "isub_c" || k == "imul_c" || k == "idiv_c") {
+                inplace++;
+                integer_class sc((long)v);
+                Poly cst = {vm};
+                norm(cst);
+                if (k == "iadd_c") {
+                    P[a] += sc;
+                    M[a] = addp(M[a], cst, p);
+                } else if (k == "isub_c") {
+                    P[a] -= sc;
+                    M[a] = sub(M[a], cst, p);
+                } else if (k == "imul_c") {
+                    P[a] *= sc;
+                    M[a] = scal(M[a], vm, p);
+                } else if (vm != 0) { // a multiple of p other than 0 has no inverse: not called
+                    P[a] /= sc;
+                    M[a] = scal(M[a], inv_mod(vm, p), p);
+                } else {
+                    bool threw = false;
+                    try {
+                        P[a] /= integer_class(0);
+                    } catch (const DivisionByZeroError &) {
+                        threw = true;
+                    }
+                    if (!threw)
+                        run.fail("no-zero-division-error:" + k, tag + ": division by 0 did not throw");
+                }
+            } else if (k == "neg") {
+                inplace++;
+                if (v & 1) {
+                    P[a].negate();
+                    M[a] = sub(Poly(), M[a], p);
+                } else {
+                    GaloisFieldDict r = -P[a];
+                    Poly w = sub(Poly(), M[a], p);
+                    if (same(r, w, tag))
+                        store(c, r, w);
+                }
+            } else if (k == "add" || k == "sub" || k == "mul") {
+                GaloisFieldDict r = k == "add" ? P[a] + P[b] : k == "sub" ? P[a] - P[b] : P[a] * P[b];
+                Poly w = k == "add" ? addp(M[a], M[b], p) : k == "sub" ? sub(M[a], M[b], p) : mul(M[a], M[b], p);
+                if (same(r, w, tag))
+                    store(c, r, w);
+            } else if (k == "divrem") {
+                if (M[b].empty()) {
+                    bool threw = false;
+                    GaloisFieldDict q, r;
+                    try {
+                        P[a].gf_div(P[b], outArg(q), outArg(r));
+                    } catch (const DivisionByZeroError &) {
+                        threw = true;
+                    }
+                    if (!threw)
+                        run.fail("no-zero-division-error:gf_div", tag + ": gf_div by the zero polynomial did not throw");
+                } else {
+                    Poly wq, wr;
+                    divmodp(M[a], M[b], p, wq, wr);
+                    GaloisFieldDict q, r;
+                    P[a].gf_div(P[b], outArg(q), outArg(r));
+                    GaloisFieldDict q2 = P[a] / P[b], r2 = P[a] % P[b];
+                    if (same(q, wq, tag + " [gf_div quotient]") && same(r, wr, tag + " [gf_div remainder]")
+                        && same(q2, wq, tag + " [operator/]") && same(r2, wr, tag + " [operator%]")) {
+                        store(c, q, wq);
+                        store(a, r, wr);
+                    }
+                }
+            } else if (k == "lshift" || k == "rshift") {
+                unsigned sh = (unsigned)(vm % 7);
+                if (k == "lshift") {
+                    GaloisFieldDict r = P[a].gf_lshift(integer_class((unsigned long)sh));
+                    Poly w;
+                    if (!M[a].empty()) {
+                        w.assign(sh, 0);
+                        w.insert(w.end(), M[a].begin(), M[a].end());
+                    }
+                    if (same(r, w, tag))
+                        store(c, r, w);
+                } else {
+                    GaloisFieldDict q, r;
+                    P[a].gf_rshift(integer_class((unsigned long)sh), outArg(q), outArg(r));
+                    Poly wq, wr;
+                    if (sh < M[a].size()) {
+                        wq.assign(M[a].begin() + sh, M[a].end());
+                        wr.assign(M[a].begin(), M[a].begin() + sh);
+                    } else
+                        wr = M[a];
+                    norm(wq);
+                    norm(wr);
+                    if (same(q, wq, tag + " [quotient]") && same(r, wr, tag + " [remainder]"))
+                        store(c, q, wq);
+                }
+            } else if (k == "sqr" || k == "pow") {
+                unsigned e = k == "sqr" ? 2 : (unsigned)(vm % 6);
+                if (deg(M[a]) * (int)e > 40)
+                    e = 2;
+                GaloisFieldDict r = k == "sqr" ? P[a].gf_sqr() : P[a].gf_pow(e);
+                Poly w = powp(M[a], e, p);
+                if (same(r, w, tag))
+                    store(c, r, w);
+            } else if (k == "monic") {
+                integer_class lc;
+                GaloisFieldDict r;
+                P[a].gf_monic(lc, outArg(r));
+                uint32_t wl = M[a].empty() ? 0 : M[a].back();
+                if (lc != integer_class((unsigned long)wl))
+                    run.fail("wrong-arith:monic", tag + ": leading coefficient " + integer(lc)->__str__()
+                                                      + ", expected " + std::to_string(wl));
+                else if (same(r, to_monic(M[a], p), tag))
+                    store(c, r, to_monic(M[a], p));
+            } else if (k == "gcd" || k == "lcm") {
+                Poly g = gcd(M[a], M[b], p), w;
+                if (k == "gcd")
+                    w = g;
+                else if (M[a].empty() || M[b].empty())
+                    w = Poly();
+                else {
+                    Poly q, r;
+                    divmodp(mul(M[a], M[b], p), g, p, q, r);
+                    w = to_monic(q, p);
+                }
+                GaloisFieldDict r = k == "gcd" ? P[a].gf_gcd(P[b]) : P[a].gf_lcm(P[b]);
+                if (same(r, w, tag))
+                    store(c, r, w);
+            } else if (k == "diff") {
+                GaloisFieldDict r = P[a].gf_diff();
+                if (same(r, diffp(M[a], p), tag))
+                    store(c, r, diffp(M[a], p));
+            } else if (k == "eval") {
+                integer_class r = P[a].gf_eval(integer_class((unsigned long)vm));
+                uint32_t w = evalp(M[a], vm, p);
+                if (r != integer_class((unsigned long)w))
+                    run.fail("wrong-arith:eval", tag + ": value at " + std::to_string(vm) + " is "
+                                                     + integer(r)->__str__() + ", expected " + std::to_string(w));
+                else
+                    judged++;
+                vec_integer_class pts;
+                for (uint32_t x = 0; x < p && x < 12; x++)
+                    pts.push_back(integer_class((unsigned long)((x + vm) % p)));
+                vec_integer_class rs = P[a].gf_multi_eval(pts);
+                for (size_t i = 0; i < pts.size() && !run.failed(); i++) {
+                    uint32_t x = (uint32_t)mp_get_ui(pts[i]);
+                    if (rs.size() != pts.size() || rs[i] != integer_class((unsigned long)evalp(M[a], x, p)))
+                        run.fail("wrong-arith:multi_eval", tag + ": multi_eval wrong at " + std::to_string(x));
+                }
+            } else if (k == "sqf") {
+                if (deg(M[a]) >= 1) {
+                    bool got = P[a].gf_is_sqf();
+                    bool w = squarefree(M[a], p);
+                    if (got != w)
+                        run.fail("wrong-arith:is_sqf", tag + ": gf_is_sqf says " + (got ? "yes" : "no"));
+                    auto lst = P[a].gf_sqf_list();
+                    Poly prod = {1};
+                    std::vector<Poly> parts;
+                    for (auto &f : lst) {
+                        std::string e = repr_error(f.first);
+                        Poly h = from_gf(f.first, p);
+                        if (!e.empty() || deg(h) < 1 || h.back() != 1 || !squarefree(h, p) || f.second < 1) {
+                            run.fail("wrong-arith:sqf_list", tag + ": part " + show(h) + "^" + std::to_string(f.second)
+                                                                 + " is not a monic square-free non-constant polynomial");
+                            break;
+                        }
+                        for (auto &o2 : parts)
+                            if (deg(gcd(o2, h, p)) != 0)
+                                run.fail("wrong-arith:sqf_list", tag + ": parts " + show(o2) + " and " + show(h) + " are not coprime");
+                        parts.push_back(h);
+                        prod = mul(prod, powp(h, f.second, p), p);
+                    }
+                    if (!run.failed() && prod != to_monic(M[a], p))
+                        run.fail("wrong-arith:sqf_list", tag + ": parts multiply to " + show(prod) + ", not to the monic input");
+                    if (!run.failed()) {
+                        GaloisFieldDict sp = P[a].gf_sqf_part();
+                        Poly rad = {1};
+                        for (auto &h : parts)
+                            rad = mul(rad, h, p);
+                        if (same(sp, rad, tag + " [sqf_part]"))
+                            store(c, sp, rad);
+                    }
+                    run.probe(w ? "arith_sqf_input" : "arith_non_sqf_input");
+                }
+            } else if (k == "compose_mod" || k == "pow_mod" || k == "frobenius") {
+                // modulus = pool member b, needs degree >= 1
+                if (deg(M[b]) >= 1) {
+                    if (k == "compose_mod") {
+                        // g(h) mod f with g = A, h = pool member c
+                        GaloisFieldDict r = P[b].gf_compose_mod(P[a], P[c]);
+                        Poly w;
+                        for (size_t i = M[a].size(); i-- > 0;) {
+                            w = mul(w, M[c], p);
+                            Poly cst = {M[a][i]};
+                            norm(cst);
+                            w = rem(addp(w, cst, p), M[b], p);
+                        }
+                        same(r, w, tag + " [g(h) mod f, h=" + show(M[c]) + "]");
+                    } else if (k == "pow_mod") {
+                        unsigned e = (unsigned)(v < 0 ? -v : v) % 200;
+                        GaloisFieldDict r = P[b].gf_pow_mod(P[a], e);
+                        Poly w = {1};
+                        Poly base = rem(M[a], M[b], p);
+                        for (unsigned i = 0; i < e; i++)
+                            w = rem(mul(w, base, p), M[b], p);
+                        if (e == 0)
+                            w = Poly{1};
+                        same(r, w, tag + " [A^" + std::to_string(e) + " mod B]");
+                    } else {
+                        auto base = P[b].gf_frobenius_monomial_base();
+                        int nb = deg(M[b]);
+                        if ((int)base.size() != nb)
+                            run.fail("wrong-arith:frobenius_base", tag + ": base has " + std::to_string(base.size()) + " entries");
+                        Poly x = {0, 1};
+                        for (int i = 0; i < nb && !run.failed(); i++) {
+                            // x^(i*p) mod B
+                            Poly w = powmod_x_p(powp(x, (unsigned)i, p), p, M[b], p);
+                            same(base[i], w, tag + " [x^(" + std::to_string(i) + "p) mod B]");
+                        }
+                        if (!run.failed()) {
+                            GaloisFieldDict r = P[a].gf_frobenius_map(P[b], base);
+                            Poly w = powmod_x_p(M[a], p, M[b], p);
+                            same(r, w, tag + " [A^p mod B]");
+                        }
+                    }
+                }
+            } else if (k == "ddf") {
+                // distinct-degree factorisation of a monic square-free polynomial
+                Poly f = to_monic(M[a], p);
+                if (deg(f) >= 1 && squarefree(f, p)) {
+                    GaloisFieldDict F = make(f);
+                    for (int which = 0; which < 2 && !run.failed(); which++) {
+                        auto parts = which ? F.gf_ddf_shoup() : F.gf_ddf_zassenhaus();
+                        const char *nm = which ? "gf_ddf_shoup" : "gf_ddf_zassenhaus";
+                        Poly prod = {1};
+                        Poly x = {0, 1};
+                        for (auto &pr : parts) {
+                            Poly h = from_gf(pr.first, p);
+                            unsigned d = pr.second;
+                            std::string e = repr_error(pr.first);
+                            if (!e.empty() || deg(h) < 1 || d < 1 || deg(h) % (int)d != 0) {
+                                run.fail(std::string("wrong-arith:") + nm, tag + ": part " + show(h) + " for degree " + std::to_string(d) + " is malformed");
+                                break;
+                            }
+                            // every irreducible factor of h has degree exactly d
+                            Poly fr = rem(x, h, p);
+                            for (unsigned kk = 1; kk <= d; kk++) {
+                                fr = powmod_x_p(fr, p, h, p); // x^(p^kk) mod h
+                                Poly diff = sub(fr, rem(x, h, p), p);
+                                if (kk < d && deg(gcd(h, diff, p)) != 0) {
+                                    run.fail(std::string("wrong-arith:") + nm, tag + ": part " + show(h) + " listed for degree " + std::to_string(d) + " has a factor of degree dividing " + std::to_string(kk));
+                                    break;
+                                }
+                                if (kk == d && !diff.empty())
+                                    run.fail(std::string("wrong-arith:") + nm, tag + ": part " + show(h) + " listed for degree " + std::to_string(d) + " has a factor of another degree");
+                            }
+                            prod = mul(prod, h, p);
+                        }
+                        if (!run.failed() && prod != f)
+                            run.fail(std::string("wrong-arith:") + nm, tag + ": parts multiply to " + show(prod) + ", not to " + show(f));
+                        if (!run.failed())
+                            judged++;
+                    }
+                    run.probe("arith_ddf_checked");
+                }
+            } else if (k == "copy") {
+                P[c] = P[a];
+                M[c] = M[a];
+                inplace++;
+            }
+        } catch (const SymEngineException &e) {
+            run.fail("exception:arith:" + k, tag + " threw " + e.what());
+        }
+        if (!run.failed())
+            check_pool(tag);
+    }
+};
+
+
+void exec_arith(Run &run, const Json &o, uint32_t p)
+{
+    Arith A(run, p);
+    const Json &init = o.at("init");
+    for (size_t i = 0; i < init.size() && i < 5; i++) {
+        Poly m = poly_from(init[i], p);
+        if (deg(m) > 24)
+            m.resize(9), norm(m);
+        A.M.push_back(m);
+        A.P.push_back(A.make(m));
+    }
+    if (A.P.empty()) {
+        A.M.push_back(Poly{1, 1});
+        A.P.push_back(A.make(A.M[0]));
+    }
+    const Json &steps = o.at("steps");
+    for (size_t i = 0; i < steps.size() && !run.failed(); i++) {
+        run.steps++;
+        A.step(steps[i]);
+    }
+    run.count("arith_results_judged", A.judged);
+    if (A.inplace >= 3)
+        run.probe("arith_history_of_in_place_updates");
+}
+
 void exec(Run &run)
 {
-    uint32_t p = (uint32_t)run.plan.at("config").geti("p", 3);
-    bool isp = p >= 2;
-    for (uint32_t d = 2; d * d <= p; d++)
-        if (p % d == 0)
-            isp = false;
-    if (!isp)
-        p = 3;
-    integer_class mod((unsigned long)p);
+    const uint32_t cfg_p = (uint32_t)run.plan.at("config").geti("p", 3);
     const Json &ops = run.plan.at("ops");
     unsigned judged = 0;
+    bool arith_hist = false;
+    std::set<uint32_t> fields_used;
     for (size_t k = 0; k < ops.size() && !run.failed(); k++) {
         const Json &o = ops[k];
         run.steps++;
+        uint32_t p = (uint32_t)o.geti("p", cfg_p);
+        bool isp = p >= 2 && p < 1000;
+        for (uint32_t d = 2; d * d <= p; d++)
+            if (p % d == 0)
+                isp = false;
+        if (!isp)
+            p = 3;
+        integer_class mod((unsigned long)p);
+        fields_used.insert(p);
+        if (fields_used.size() > 1)
+            run.probe("several_fields_in_one_run");
+        if (o.gets("op") == "arith") {
+            exec_arith(run, o, p);
+            if (run.counters.count("probe.arith_history_of_in_place_updates"))
+                arith_hist = true;
+            continue;
+        }
         Poly f = poly_from(o.at("f"), p);
         if (deg(f) < 1 || deg(f) > 14) {
             run.ev("skip degenerate input");
@@ -361,6 +973,17 @@ void exec(Run &run)
             static const char *algos[] = {"gf_factor", "gf_zassenhaus", "gf_shoup"};
             for (int a = 0; a < (sqf_monic ? 3 : 1) && !run.failed(); a++) {
                 simrand::set(list, 20000);
+                if (s < seeds.size() && s < o.at("force").size()) {
+                    const Json &fz = o.at("force")[s];
+                    if (fz.size() >= 3 && fz[0].s == "prefix") {
+                        uint64_t L = (uint64_t)std::min<int64_t>(200, fz[1].as_int());
+                        for (uint64_t i = 0; i < L; i++)
+                            simrand::force(i, (int)(fz[2].as_int() % 5));
+                    } else if (fz.size() >= 3 && fz[0].s == "at") {
+                        for (size_t i = 1; i + 1 < fz.size(); i += 2)
+                            simrand::force((uint64_t)(fz[i].as_int() % 200), (int)(fz[i + 1].as_int() % 5));
+                    }
+                }
                 Factors got;
                 uint32_t lc = 1;
                 try {
@@ -388,6 +1011,9 @@ void exec(Run &run)
                 }
                 uint64_t draws = simrand::state().draws;
                 run.count("rand_draws", draws);
+                run.count("gmp_draws", simrand::state().gmp_draws);
+                if (simrand::state().forced_fired)
+                    run.counters["fault.gmp_draw_forced"] += simrand::state().forced_fired;
                 run.fault("seed_list_replayed");
                 if (draws > 0)
                     run.probe("random_splitting_used");
@@ -429,7 +1055,7 @@ void exec(Run &run)
         }
     }
     simrand::set({}, 0);
-    run.nontrivial = judged >= 4 && run.counters.count("probe.random_splitting_used");
+    run.nontrivial = (judged >= 4 && run.counters.count("probe.random_splitting_used")) || arith_hist;
 }
 
 } // namespace
